@@ -183,6 +183,16 @@ func (ch *child) ask(cmd string, timeout time.Duration) (string, error) {
 	}
 }
 
+func (ch *child) counts() (childStats, error) {
+	var st childStats
+	s, err := ch.ask("C", 20*time.Second)
+	if err != nil {
+		return st, err
+	}
+	err = json.Unmarshal([]byte(s), &st)
+	return st, err
+}
+
 func (ch *child) stats() (childStats, error) {
 	var st childStats
 	s, err := ch.ask("S", 20*time.Second)
@@ -243,10 +253,10 @@ func (ch *child) panicSummary() string {
 // ---------- conversations ----------
 
 const (
-	itReq   = iota // an RTSP request (text); a response is awaited
-	itRaw          // raw bytes; nothing awaited
-	itSleep        // pause (ms in n)
-	itRawResp      // raw bytes after which one response (RTSP or HTTP) is awaited
+	itReq     = iota // an RTSP request (text); a response is awaited
+	itRaw            // raw bytes; nothing awaited
+	itSleep          // pause (ms in n)
+	itRawResp        // raw bytes after which one response (RTSP or HTTP) is awaited
 )
 
 type item struct {
@@ -273,11 +283,10 @@ type conv struct {
 	items   []item
 	carrier int
 	end     int
-	// model side (filled by the grammar-level generator); nil when the conversation has no model counterpart
-	abs []absReq
 }
 
 type convResult struct {
+	sent         int   // bytes written on the first connection
 	statuses     []int // per itReq/itRawResp item: status code, 0 = none (closed or timeout)
 	frames       int   // interleaved frames received
 	closedBySrv  bool
@@ -471,8 +480,8 @@ func runConv(port int, useTLS bool, cv *conv, tm timing) convResult {
 		return res
 	}
 	defer nc.Close()
-	var wr io.Writer = nc      // where requests go
-	var rdConn net.Conn = nc   // where responses come from
+	var wr io.Writer = nc    // where requests go
+	var rdConn net.Conn = nc // where responses come from
 	var rd io.Reader = nc
 	var mask = [4]byte{1, 2, 3, 4}
 	encode := func(b []byte) []byte { return b }
@@ -513,6 +522,7 @@ func runConv(port int, useTLS bool, cv *conv, tm timing) convResult {
 			return res
 		}
 		rd = br
+		time.Sleep(40 * time.Millisecond) // see openConn
 		pc, err := dial(port, useTLS)
 		if err != nil {
 			res.dialErr = err
@@ -590,6 +600,7 @@ func runConv(port int, useTLS bool, cv *conv, tm timing) convResult {
 			}
 			_, err := wr.Write(encode(data))
 			lastSent = time.Now()
+			res.sent += len(data)
 			if err != nil {
 				// the server has closed already (e.g. after a previous error): find out by reading
 				closed = true
